@@ -7,7 +7,7 @@ from harness.common import cps, uncps
 from harness.props.c01 import all_texts
 
 BRIDGE = ('Gemato.Bridge.Tree', 'Gemato.Bridge.SrcVerify', 'Gemato.Bridge.SrcLoader', 'Gemato.Bridge.SrcUpdate')
-PROPS = ['Gemato.Props.C03']
+PROPS = ['Gemato.Props.C03', 'Gemato.Props.C03b']
 HASHSETS = [['SHA1'], ['MD5', 'SHA256'], ['BLAKE2B', 'SHA512'], ['SHA512']]
 
 
